@@ -37,31 +37,56 @@ type TableHeader struct {
 }
 
 func PointerField(psi []byte) uint8 {
+	if len(psi) == 0 {
+		return 0
+	}
 	return psi[0]
+}
+
+// firstSection returns the bytes from the start of the first section on, or
+// nil when the payload ends before it.
+func firstSection(psi []byte) []byte {
+	offset := 1 + int(PointerField(psi))
+	if offset >= len(psi) {
+		return nil
+	}
+	return psi[offset:]
 }
 
 // TableID returns the psi table header table id
 func TableID(psi []byte) uint8 {
-	return tableID(psi[1+PointerField(psi):])
+	section := firstSection(psi)
+	if len(section) < 1 {
+		return 0
+	}
+	return tableID(section)
 }
 
 // SectionSyntaxIndicator returns true if the psi contains section syntax
 func SectionSyntaxIndicator(psi []byte) bool {
-	return sectionSyntaxIndicator(psi[1+PointerField(psi):])
+	section := firstSection(psi)
+	if len(section) < 2 {
+		return false
+	}
+	return sectionSyntaxIndicator(section)
 }
 
 // PrivateIndicator returns true if the psi contains private data
 func PrivateIndicator(psi []byte) bool {
-	return psi[2+PointerField(psi)]&0x40 != 0
+	section := firstSection(psi)
+	if len(section) < 2 {
+		return false
+	}
+	return section[1]&0x40 != 0
 }
 
 // SectionLength returns the psi section length
 func SectionLength(psi []byte) uint16 {
-	offset := int(1 + PointerField(psi))
-	if offset >= len(psi) {
+	section := firstSection(psi)
+	if len(section) < 3 {
 		return 0
 	}
-	return sectionLength(psi[offset:])
+	return sectionLength(section)
 }
 
 // tableID returns the table id from the header of a section
